@@ -5,7 +5,7 @@ Import ListNotations.
 Open Scope R_scope.
 
 Definition ROOps : OOps R :=
-  {| o0 := 0; ohalf := / 2; oadd := Rplus; osub := Rminus; omul := Rmult; odiv := Rdiv;
+  {| o0 := 0; ohalf := / 2; oten := 10; ohuge := 10 ^ 300; oadd := Rplus; osub := Rminus; omul := Rmult; odiv := Rdiv;
      oopp := Ropp; osqrt := sqrt; oabs := Rabs; oltb := Rltb;
      osuml := fun l => fold_left Rplus l 0 |}.
 
@@ -274,6 +274,150 @@ Proof.
   - fold (vol b). repeat split; try lra; auto. apply Rabs_le. lra.
 Qed.
 
+(* ------------------------------------------------------------------ the bracket-growing loop (fix of F19) *)
+Lemma oc_lower_length pr (x : list R) : length (oc_lower ROOps pr x) = length x.
+Proof. unfold oc_lower. rewrite map_length, combine_length, seq_length. lia. Qed.
+
+Lemma oc_lower_nth pr (x : list R) j : (j < length x)%nat ->
+  nth j (oc_lower ROOps pr x) 0 = omaxR (bget ROOps (bmin pr) j) (nth j x 0 - move pr).
+Proof.
+  intros Hj. unfold oc_lower.
+  rewrite nth_map_in with (d := (0%nat, 0)) by (rewrite combine_length, seq_length; lia).
+  rewrite combine_nth by (rewrite seq_length; reflexivity). rewrite seq_nth by exact Hj. reflexivity.
+Qed.
+
+(* every entry of the update is >= its lower bound max(xmin, x - move) *)
+Lemma oc_xnew_ge_lower pr lam (x g : list R) j : in_box pr x -> 0 <= move pr -> length g = length x -> (j < length x)%nat ->
+  nth j (oc_lower ROOps pr x) 0 <= nth j (oc_xnew ROOps pr lam x g) 0.
+Proof.
+  intros Hb Hm Hl Hj. rewrite oc_lower_nth, oc_xnew_nth by assumption. unfold oc_elem. cbn [osub oadd ROOps].
+  specialize (Hb j Hj).
+  match goal with |- _ <= oclip ROOps ?a ?lo ?hi => assert (H : lo <= hi); [|destruct (oclip_range a lo hi H); assumption] end.
+  destruct (omax_spec (bget ROOps (bmin pr) j) (nth j x 0 - move pr)) as [_ [E | E]];
+  destruct (omin_spec (bget ROOps (bmax pr) j) (nth j x 0 + move pr)) as [_ [F | F]]; rewrite E, F; lra.
+Qed.
+
+Lemma any_above_false (xn lower : list R) : any_above ROOps xn lower = false -> length lower = length xn ->
+  forall j, (j < length xn)%nat -> nth j xn 0 <= nth j lower 0.
+Proof.
+  unfold any_above. intros H Hl j Hj.
+  assert (Hall : forall q, In q (combine xn lower) -> oltb ROOps (snd q) (fst q) = false).
+  { intros q Hq. destruct (oltb ROOps (snd q) (fst q)) eqn:E; [|reflexivity]. exfalso.
+    assert (T : existsb (fun q => oltb ROOps (snd q) (fst q)) (combine xn lower) = true)
+      by (apply existsb_exists; exists q; split; assumption).
+    rewrite T in H. discriminate. }
+  assert (Hin : In (nth j xn 0, nth j lower 0) (combine xn lower)).
+  { rewrite <- combine_nth by (symmetry; exact Hl). apply nth_In. rewrite combine_length. lia. }
+  specialize (Hall _ Hin). cbn [fst snd oltb ROOps] in Hall. apply Rltb_false in Hall. exact Hall.
+Qed.
+
+Section Grow.
+  Variable pr : @oc_params R.
+  Variable maxvol : R.
+  Variables x g : list R.
+  Let xn (lam : R) : list R := oc_xnew ROOps pr lam x g.
+  Let vol (lam : R) : R := osum ROOps (xn lam).
+
+  (* on exit: the multiplier is l2 * 10^k, xnew is the update at it, and the loop test is false *)
+  Lemma grow_invariant fuel : forall l2 l2g xng,
+    grow ROOps pr maxvol x g fuel l2 (xn l2) = GrowDone l2g xng ->
+    xng = xn l2g /\ (exists k : nat, l2g = l2 * 10 ^ k) /\
+    (vol l2g <= maxvol \/ any_above ROOps (xn l2g) (oc_lower ROOps pr x) = false \/ 10 ^ 300 <= l2g).
+  Proof.
+    induction fuel as [|fuel IH]; intros l2 l2g xng E; cbn [grow] in E;
+      cbn [oltb osub omul oten ohuge o0 ROOps] in E; fold (vol l2) in E.
+    - destruct (Rltb 0 (vol l2 - maxvol)) eqn:T1; cbn [andb] in E.
+      + destruct (any_above ROOps (xn l2) (oc_lower ROOps pr x)) eqn:T2; cbn [andb] in E.
+        * destruct (Rltb l2 (10 ^ 300)) eqn:T3; [discriminate|]. apply Rltb_false in T3.
+          injection E as <- <-. split; [reflexivity|]. split; [exists 0%nat; cbn; lra | right; right; exact T3].
+        * injection E as <- <-. split; [reflexivity|]. split; [exists 0%nat; cbn; lra | right; left; exact T2].
+      + apply Rltb_false in T1. injection E as <- <-. split; [reflexivity|]. split; [exists 0%nat; cbn; lra | left; lra].
+    - destruct (Rltb 0 (vol l2 - maxvol)) eqn:T1; cbn [andb] in E.
+      + destruct (any_above ROOps (xn l2) (oc_lower ROOps pr x)) eqn:T2; cbn [andb] in E.
+        * destruct (Rltb l2 (10 ^ 300)) eqn:T3.
+          -- fold (xn (l2 * 10)) in E. destruct (IH _ _ _ E) as [I1 [[k I2] I3]].
+             split; [exact I1|]. split; [exists (S k); rewrite I2; cbn [pow]; ring | exact I3].
+          -- apply Rltb_false in T3. injection E as <- <-. split; [reflexivity|]. split; [exists 0%nat; cbn; lra | right; right; exact T3].
+        * injection E as <- <-. split; [reflexivity|]. split; [exists 0%nat; cbn; lra | right; left; exact T2].
+      + apply Rltb_false in T1. injection E as <- <-. split; [reflexivity|]. split; [exists 0%nat; cbn; lra | left; lra].
+  Qed.
+
+  (* the loop ends after k steps as soon as l2 * 10^k >= 1e300 *)
+  Lemma grow_terminates : forall k fuel l2 xn0, 10 ^ 300 <= l2 * 10 ^ k -> (k <= fuel)%nat ->
+    grow ROOps pr maxvol x g fuel l2 xn0 <> GrowOutOfFuel.
+  Proof.
+    induction k as [|k IH]; intros fuel l2 xn0 Hk Hf.
+    - cbn in Hk. destruct fuel; cbn [grow]; cbn [oltb ohuge ROOps];
+        (destruct (Rltb l2 (10 ^ 300)) eqn:T; [apply Rltb_true in T; lra | rewrite andb_false_r; discriminate]).
+    - destruct fuel as [|fuel]; [lia|]. cbn [grow]. cbn [oltb omul oten ohuge ROOps].
+      destruct (_ && _ && _); [|discriminate]. apply IH; [|lia].
+      replace (l2 * 10 * 10 ^ k) with (l2 * 10 ^ S k) by (cbn [pow]; ring). exact Hk.
+  Qed.
+
+  (* whenever the target volume is reachable from below within the move limits (sum of the lower bounds <= maxvol)
+     the grown multiplier -- unless it hit 1e300 -- gives a volume <= maxvol: the bisection starts bracketed *)
+  Theorem grow_brackets fuel l2 l2g xng : in_box pr x -> 0 <= move pr -> length g = length x ->
+    grow ROOps pr maxvol x g fuel l2 (xn l2) = GrowDone l2g xng ->
+    osum ROOps (oc_lower ROOps pr x) <= maxvol -> l2g < 10 ^ 300 ->
+    xng = xn l2g /\ vol l2g <= maxvol.
+  Proof.
+    intros Hb Hm Hl E Hreach Hh. destruct (grow_invariant fuel l2 l2g xng E) as [I1 [_ [I3 | [I3 | I3]]]].
+    - split; assumption.
+    - split; [exact I1|]. apply Rle_trans with (osum ROOps (oc_lower ROOps pr x)); [|exact Hreach].
+      apply osum_le.
+      + unfold xn. rewrite oc_xnew_length, oc_lower_length by exact Hl. reflexivity.
+      + apply any_above_false; [exact I3|]. unfold xn. rewrite oc_xnew_length, oc_lower_length by exact Hl. reflexivity.
+    - lra.
+  Qed.
+End Grow.
+
+Lemma growth_steps_exist (l2 : R) : 0 < l2 -> exists k : nat, 10 ^ 300 <= l2 * 10 ^ k.
+Proof.
+  intros Hl. set (pr0 := mkParams 0 0 0%nat (BScalar 0) (BScalar 0) 0 0 0 l2 0).
+  destruct (halvings_exist pr0 (10 ^ 300) Hl) as [k Hk]. cbn [l1l2tol pr0] in Hk.
+  exists k. assert (H2 : 0 < 2 ^ k) by (apply pow_lt; lra).
+  assert (H10 : 2 ^ k <= 10 ^ k) by (apply pow_incr; lra).
+  assert (10 ^ 300 <= l2 * 2 ^ k).
+  { apply Rmult_le_reg_r with (/ 2 ^ k); [apply Rinv_0_lt_compat; exact H2|].
+    rewrite Rmult_assoc, Rinv_r by lra. unfold Rdiv in Hk. lra. }
+  apply Rle_trans with (l2 * 2 ^ k); [assumption | apply Rmult_le_compat_l; lra].
+Qed.
+
+(* one OC step of the repaired code: bracket growing followed by bisection.  If the volume is reachable from below
+   within the move limits (sum of max(xmin, x-move) <= maxvol), the multiplier did not hit 1e300, and the lower end
+   of the interval moved (the volume is reachable from above inside the interval), the new design is the update at
+   one end of a final interval [a, b] of length <= l1l2tol with vol(b) <= maxvol < vol(a), and its volume differs
+   from maxvol by at most vol(a) - vol(b) *)
+Theorem oc_step_volume (pr : @oc_params R) maxvol (x g : list R) gfuel bfuel l2g xng a b xnew :
+  in_box pr x -> 0 <= move pr -> nonneg x -> nonpos g -> length g = length x ->
+  0 <= l1init pr <= l2init pr ->
+  grow ROOps pr maxvol x g gfuel (l2init pr) (oc_xnew ROOps pr (l2init pr) x g) = GrowDone l2g xng ->
+  bisect ROOps pr maxvol x g bfuel (l1init pr) l2g (Some xng) = BisDone a b (Some xnew) ->
+  osum ROOps (oc_lower ROOps pr x) <= maxvol -> l2g < 10 ^ 300 -> a <> l1init pr ->
+  let vol := fun lam => osum ROOps (oc_xnew ROOps pr lam x g) in
+  l1init pr < a <= b /\ b - a <= l1l2tol pr /\
+  (xnew = oc_xnew ROOps pr a x g \/ xnew = oc_xnew ROOps pr b x g) /\
+  vol b <= maxvol < vol a /\ vol b <= osum ROOps xnew <= vol a /\
+  Rabs (osum ROOps xnew - maxvol) <= vol a - vol b.
+Proof.
+  intros Hb Hm Hx Hg Hlen [H0 H12] Eg Eb Hreach Hh Ha vol.
+  destruct (grow_brackets pr maxvol x g gfuel (l2init pr) l2g xng Hb Hm Hlen Eg Hreach Hh) as [Exng Hvol].
+  destruct (grow_invariant pr maxvol x g gfuel (l2init pr) l2g xng Eg) as [_ [[k Ek] _]].
+  assert (Hl2 : l2init pr <= l2g).
+  { rewrite Ek. assert (1 <= 10 ^ k) by (apply pow_R1_Rle; lra).
+    assert (0 <= l2init pr) by lra. nra. }
+  assert (Hle : l1init pr <= l2g) by lra.
+  destruct (bisect_invariant pr maxvol x g bfuel (l1init pr) l2g (Some xng) a b (Some xnew) Hle Eb) as [P1 [P2 [P3 [P4 [_ [P6 [P7 P8]]]]]]].
+  destruct P6 as [P6 | P6]; [contradiction|]. fold (vol a) in P6.
+  assert (P7' : vol b <= maxvol) by (destruct P7 as [-> | P7]; [exact Hvol | exact P7]).
+  assert (Hla : l1init pr < a) by lra.
+  assert (Hanti : vol b <= vol a) by (apply volume_antitone; [lra | assumption..]).
+  assert (Cases : xnew = oc_xnew ROOps pr a x g \/ xnew = oc_xnew ROOps pr b x g).
+  { destruct P8 as [[Ex [Ea _]] | [[Ex _] | [Ex _]]]; [contradiction | injection Ex as ->; left; reflexivity | injection Ex as ->; right; reflexivity]. }
+  split; [lra|]. split; [exact P4|]. split; [exact Cases|]. split; [lra|].
+  destruct Cases as [-> | ->]; [fold (vol a) | fold (vol b)]; (split; [lra | apply Rabs_le; lra]).
+Qed.
+
 (* ------------------------------------------------------------------ the whole run *)
 Fixpoint chain (mv : R) (l : list (list R)) : Prop :=
   match l with
@@ -300,9 +444,9 @@ Section Run.
   (* every design the run produces, in order: the design at each response() call and the final one *)
   Definition all_designs (t : oc_trace) : list (list R) := map fst (designs t) ++ [final t].
 
-  Definition good (xval : list R) (states : list (pstate R)) (prev : option (list R)) : Prop :=
+  Definition good (xval : list R) (states : list (pstate R)) : Prop :=
     length xval = length vals0 /\ in_box pr xval /\ length states = length vars /\
-    concat (map pflat states) = xval /\ (prev = None \/ prev = Some xval).
+    concat (map pflat states) = xval.
 
   Definition design_ok (d : list R * list (pstate R)) : Prop :=
     in_box pr (fst d) /\ concat (map pflat (snd d)) = fst d /\ length (snd d) = length vars.
@@ -310,13 +454,13 @@ Section Run.
   Lemma write_back_length nv (xn : list R) c : length (write_back nv xn c) = nv.
   Proof. unfold write_back. rewrite map_length, seq_length. reflexivity. Qed.
 
-  Theorem oc_loop_invariant : forall n it xval states f prev, good xval states prev ->
-    let t := oc_loop ROOps pr obs maxvol bfuel cum n it xval states f prev in
+  Theorem oc_loop_invariant : forall n it xval states f, good xval states ->
+    let t := oc_loop ROOps pr obs maxvol bfuel cum n it xval states f in
     Forall design_ok (designs t) /\
     in_box pr (final t) /\ concat (map pflat (final_states t)) = final t /\
     (exists L, all_designs t = xval :: L) /\ chain (move pr) (all_designs t).
   Proof.
-    induction n as [|n IH]; intros it xval states f prev G; destruct G as [G1 [G2 [G3 [G4 G5]]]].
+    induction n as [|n IH]; intros it xval states f G; destruct G as [G1 [G2 [G3 G4]]].
     - cbn. split; [constructor|]. split; [exact G2|]. split; [exact G4|]. split; [exists []; reflexivity | exact I].
     - cbn zeta. cbn [oc_loop].
       set (fg := obs it states).
@@ -332,34 +476,35 @@ Section Run.
       destruct (concatenate_to_array (obtain_sensitivities ROOps (snd fg) states)) as [[g c]|] eqn:Eg; [|apply (Stop [] StopValueError)].
       assert (Hg : length (clip_grad ROOps g) = length xval).
       { rewrite (proj2 (clip_grad_nonpos g)). rewrite (obs_wf it states g c Eg). rewrite G4. reflexivity. }
-      destruct (bisect ROOps pr maxvol xval (clip_grad ROOps g) bfuel (l1init pr) (l2init pr) prev) as [|a b lst] eqn:Eb.
+      cbn zeta.
+      destruct (grow ROOps pr maxvol xval (clip_grad ROOps g) bfuel (l2init pr) (oc_xnew ROOps pr (l2init pr) xval (clip_grad ROOps g))) as [|l2g xng] eqn:Egr.
+      { apply (Stop [_] StopOutOfFuel). }
+      destruct (bisect ROOps pr maxvol xval (clip_grad ROOps g) bfuel (l1init pr) l2g (Some xng)) as [|a b lst] eqn:Eb.
       { apply (Stop [_] StopOutOfFuel). }
       destruct lst as [xn|]; [|apply (Stop [_] StopUnbound)].
-      (* the new design is either an OC update of xval or (body never ran) the old binding = xval *)
+      (* the new design is an OC update of xval for some multiplier (from the growing or the bisection loop) *)
       assert (Hxn : in_box pr xn /\ within_move (move pr) xval xn).
-      { assert (Cases : xn = xval \/ exists lam, xn = oc_xnew ROOps pr lam xval (clip_grad ROOps g)).
-        { clear -Eb G5.
+      { assert (Cases : exists lam, xn = oc_xnew ROOps pr lam xval (clip_grad ROOps g)).
+        { destruct (grow_invariant pr maxvol xval (clip_grad ROOps g) bfuel (l2init pr) l2g xng Egr) as [Exng _].
+          clear -Eb Exng.
           assert (Gen : forall fuel l1 l2 last, bisect ROOps pr maxvol xval (clip_grad ROOps g) fuel l1 l2 last = BisDone a b (Some xn) ->
                         last = Some xn \/ exists lam, xn = oc_xnew ROOps pr lam xval (clip_grad ROOps g)).
           { induction fuel as [|fuel IHf]; intros l1 l2 last E; cbn [bisect] in E.
             - destruct (oltb ROOps _ _); [discriminate|]. injection E as _ _ ->. left. reflexivity.
             - destruct (oltb ROOps _ _); [|injection E as _ _ ->; left; reflexivity].
               destruct (oltb ROOps _ _); (destruct (IHf _ _ _ E) as [H | H]; [right; eexists; injection H as <-; reflexivity | right; exact H]). }
-          destruct (Gen _ _ _ _ Eb) as [H | H]; [|right; exact H].
-          destruct G5 as [-> | ->]; [discriminate|]. injection H as ->. left. reflexivity. }
-        destruct Cases as [-> | [lam ->]].
-        - split; [exact G2 | apply within_move_refl; exact Hmove].
-        - apply oc_xnew_box; assumption. }
+          destruct (Gen _ _ _ _ Eb) as [H | H]; [|exact H].
+          injection H as <-. eexists. exact Exng. }
+        destruct Cases as [lam ->]. apply oc_xnew_box; assumption. }
       destruct Hxn as [Hbox Hmv].
       destruct (oltb ROOps _ (tolx pr)); [apply (Stop [_] StopTolX)|].
       assert (Hlen : length xn = length vals0) by (rewrite (proj1 Hmv); exact G1).
       pose proof (write_back_roundtrip vars vals0 cum xn Hcat Hlen) as [Wb1 _].
-      assert (G' : good xn (write_back (length states) xn cum) (Some xn)).
-      { rewrite G3. unfold good. split; [exact Hlen|]. split; [exact Hbox|]. split; [apply write_back_length|].
-        split; [exact Wb1 | right; reflexivity]. }
-      specialize (IH (S it) xn (write_back (length states) xn cum) (fst fg) (Some xn) G').
+      assert (G' : good xn (write_back (length states) xn cum)).
+      { rewrite G3. unfold good. split; [exact Hlen|]. split; [exact Hbox|]. split; [apply write_back_length | exact Wb1]. }
+      specialize (IH (S it) xn (write_back (length states) xn cum) (fst fg) G').
       cbn zeta in IH. destruct IH as [I1 [I2 [I3 [[L I4] I5]]]].
-      set (rec := oc_loop ROOps pr obs maxvol bfuel cum n (S it) xn (write_back (length states) xn cum) (fst fg) (Some xn)) in *.
+      set (rec := oc_loop ROOps pr obs maxvol bfuel cum n (S it) xn (write_back (length states) xn cum) (fst fg)) in *.
       cbn [cons_design cons_warn designs final final_states warns stop].
       split; [constructor; [unfold design_ok; cbn [fst snd]; auto | exact I1]|].
       split; [exact I2|]. split; [exact I3|].
@@ -388,13 +533,12 @@ Proof.
   intros E. injection E as <-.
   assert (Hv : vals0 = concat (map pflat vars)).
   { rewrite concatenate_spec in Hcat. destruct (no_none vars); [|discriminate]. injection Hcat as <- _. reflexivity. }
-  assert (G : good pr vars vals0 vals0 vars None).
-  { unfold good. split; [reflexivity|]. split; [rewrite Hv; exact Hbox|]. split; [reflexivity|].
-    split; [symmetry; exact Hv | left; reflexivity]. }
+  assert (G : good pr vars vals0 vals0 vars).
+  { unfold good. split; [reflexivity|]. split; [rewrite Hv; exact Hbox|]. split; [reflexivity | symmetry; exact Hv]. }
   change (o0 ROOps) with 0.
-  match goal with |- context [oc_loop ROOps pr obs ?m bfuel cum (maxit pr) 0%nat vals0 vars 0 None] => set (mv := m) end.
+  match goal with |- context [oc_loop ROOps pr obs ?m bfuel cum (maxit pr) 0%nat vals0 vars 0] => set (mv := m) end.
   pose proof (oc_loop_invariant pr obs mv bfuel vars vals0 cum Hcat Hm Hobs
-                (maxit pr) 0%nat vals0 vars 0 None G) as [I1 [I2 [I3 [[L I4] I5]]]].
+                (maxit pr) 0%nat vals0 vars 0 G) as [I1 [I2 [I3 [[L I4] I5]]]].
   split; [exact I1|]. split.
   - unfold all_designs in *. apply Forall_app. split; [|constructor; [exact I2 | constructor]].
     apply Forall_map. eapply Forall_impl; [|exact I1]. intros d [H _]. exact H.
